@@ -367,3 +367,7 @@ mod tests {
         assert!(*trade_vols == vec![0, 0, 30]);
     }
 }
+
+#[cfg(any(kani, verif_replay))]
+#[path = "/verif/harness/env_proofs.rs"]
+pub(crate) mod verif_proofs;
